@@ -388,4 +388,10 @@ def probe_histories():
                     ev("replace", v=VX, nr=nr), ev("prepend", v=V1, nr=nr), ev("get")])
         out.append([ev("set_many", k="", items=[["a", V1], ["b", VX]], exp=2, nr=nr), ev("get_many", k="", keys=["b", "a"]), T(3),
                     ev("get_many", k="", keys=["a", "b"]), ev("delete_many", k="", keys=["a", "b"], nr=nr), ev("flush_all", k="", nr=nr)])
+        # values that end in (or consist of) line terminators come back whole; multi-key calls with nothing to ask for
+        for v in ([120, 10], [120, 13], [13, 10], [10], [120, 13, 10, 13, 10]):
+            out.append([ev("set", v=v, nr=nr), ev("get"), ev("gets"), ev("get_many", k="", keys=["a", "b"]), ev("append", v=[10], nr=nr),
+                        ev("get"), ev("gat", exp=0), ev("gats", exp=0)])
+        out.append([ev("get_many", k="", keys=[]), ev("gets_many", k="", keys=[]), ev("delete_many", k="", keys=[], nr=nr),
+                    ev("set_many", k="", items=[], nr=nr), ev("set", v=V1, nr=nr), ev("get_many", k="", keys=[]), ev("get")])
     return out
